@@ -92,9 +92,15 @@ Q_Bounds == {<<46>>, <<48>>, <<97, 47, 46>>, <<47>>}
 T_Keys   == {<<46>>, <<48>>, <<97, 47, 46>>, <<97, 47, 48>>}
 T_Probes == T_Keys \cup {<<47>>, <<48, 48>>, <<97>>, <<97, 47, 47>>}
 T_Bounds == {<<46>>, <<48>>, <<97, 47, 46>>, <<47>>, <<97, 47, 48>>}
+\* long keys: "settings" (flat, 8 bytes), "services/a" and "servicesx/b" (first span of 8 / 9 bytes)
+K_settings  == <<115, 101, 116, 116, 105, 110, 103, 115>>
+K_services  == <<115, 101, 114, 118, 105, 99, 101, 115>>
+K_servicesA == K_services \o <<47, 97>>
+K_servicesxB == K_services \o <<120, 47, 98>>
 R_Keys   == {<<46>>, <<46, 46>>, <<47>>, <<48>>, <<49>>, <<97>>, <<46, 47>>, <<97, 47, 46>>,
-             <<97, 47, 48>>, <<97, 46>>, <<97, 48>>, <<97, 47, 47>>, <<97, 47, 46, 47, 48>>, <<48, 47, 46>>}
-R_Probes == R_Keys \cup {<<45>>, <<47, 47>>, <<97, 47>>, <<98>>}
-R_Bounds == {<<46>>, <<47>>, <<48>>, <<97, 47>>, <<97, 47, 47>>, <<97, 48>>}
+             <<97, 47, 48>>, <<97, 46>>, <<97, 48>>, <<97, 47, 47>>, <<97, 47, 46, 47, 48>>, <<48, 47, 46>>,
+             K_settings, K_servicesA, K_servicesxB}
+R_Probes == R_Keys \cup {<<45>>, <<47, 47>>, <<97, 47>>, <<98>>, K_services, K_settings \o <<47>>}
+R_Bounds == {<<46>>, <<47>>, <<48>>, <<97, 47>>, <<97, 47, 47>>, <<97, 48>>, K_services}
 R_DR     == {<<48>>, <<97>>, <<97, 47, 46>>, <<97, 47, 47>>}
 =============================================================================
